@@ -349,5 +349,27 @@ check("C17",
                 "unrelated operations at every step, reversed sub-term order) on the implementation, differential oracle",
       engine="explore", design="3/C17", deadline={"quick": 200, "thorough": 1500})
 
+check("C20",
+      passes=[dict(name="C20", src=["harness/C20.cpp"] + ENV, variant="fast", shards={"quick": 16, "thorough": 16}),
+              dict(name="C20tsan", src=["harness/C20.cpp"], variant="tsan", flags=["-DC20_TSAN"], shards={"quick": 4, "thorough": 8})],
+      rule="(a) serialising scheduler over hooked scheduling points (every operator new, operator delete, std::_Hash_bytes, every "
+           "stream write, operation boundaries, thread start/end, rendezvous): for EVERY assignment of 5 construction programs "
+           "(declare+print with locations, type towers, interning incl. reserved words, literals/labels/symbols/linkages, class+enum+"
+           "print) to 2 threads, in two shapes (isolated: Lexicons alive until all are done; lifecycle: each thread creates, uses and "
+           "destroys two Lexicons in a row), EVERY schedule with <= 2 (quick) / <= 3 (thorough) preemptions; to 3 threads: 35 "
+           "assignments up to permutation with <= 1 preemption (quick) / all 125 with <= 2 (thorough). Oracle per schedule: each "
+           "thread's trace byte-identical to the same program run alone; nodes handed out by two live Lexicons intersect only in the "
+           "process-wide constants; per-thread allocation balance (a block allocated by one thread and released by another is a "
+           "violation); replayed twice before report. (b) the same bodies free-running on 2,3,4,8,16 threads under ThreadSanitizer: "
+           "no report. distinct_nontrivial = thread/program configurations explored.",
+      text="All schedules up to a preemption bound of the real library under a controlled scheduler, plus a free-running "
+           "ThreadSanitizer pass of the same thread bodies for unsynchronised plain accesses.",
+      note="Preemption is explored at allocation / hash / stream-write / operation granularity only; plain accesses between two "
+           "such points are left to the ThreadSanitizer pass (dynamic: it sees the accesses the bodies execute). Memory-model "
+           "effects are out of scope.",
+      technique="stateless exploration of all thread schedules up to a preemption bound (iterative context bounding) on the "
+                "implementation under a serialising scheduler; separate free-running ThreadSanitizer pass",
+      engine="sched", design="3/C20", deadline={"quick": 200, "thorough": 1500})
+
 # Properties not claimed (with the reason that goes to MANIFEST.not_applicable).
 NOT_CLAIMED = {}
